@@ -898,6 +898,38 @@ class Run:
                           found_input=False)
         self.ops.append(("DEC %s %s" % (cls.__name__, json.dumps(json.loads(real_json), ensure_ascii=False)), on_dec))
 
+        # text layer (round 2): the model's OWN reader (parseJson, proved inverse to the printer:
+        # C18_json_text_roundtrip) on the real to_json text — FROMJSON must give what the real
+        # from_json gives, PARSE must re-render to the identical text, and Python's
+        # json.loads/json.dumps must be inverse on it too (was a trusted assumption).
+        def on_fromjson(ans, want=want_dec):
+            if ans == want:
+                return
+            self.disagreements += 1
+            chk.violation("correspondence", dict(replay_input, origin=origin, model=ans[:300], observed=want[:300],
+                                                 expected="real code satisfies the round-trip oracle; model fromJson (text level) differs",
+                                                 theorem_or_correspondence="model_c18 FROMJSON vs IrDataSerializer.from_json"),
+                          found_input=False)
+
+        def on_parse(ans, real_json=real_json):
+            if ans == "parse ok " + real_json:
+                return
+            self.disagreements += 1
+            chk.violation("correspondence", dict(replay_input, origin=origin, model=ans[:300], observed=real_json[:300],
+                                                 expected="the model's JSON reader accepts the real to_json text and re-renders it identically",
+                                                 theorem_or_correspondence="model_c18 PARSE vs to_json text"),
+                          found_input=False)
+        if "\n" not in real_json and "\r" not in real_json:
+            self.ops.append(("FROMJSON %s %s" % (cls.__name__, real_json), on_fromjson))
+            self.ops.append(("PARSE " + real_json, on_parse))
+            self.text_layer_ops = getattr(self, "text_layer_ops", 0) + 2
+            if json.dumps(json.loads(real_json)) != real_json:
+                self.disagreements += 1
+                chk.violation("correspondence", dict(replay_input, origin=origin, observed=real_json[:300],
+                                                     expected="json.dumps(json.loads(text)) == text for a to_json text",
+                                                     theorem_or_correspondence="CPython json module on to_json output"),
+                              found_input=False)
+
         names = [nm for nm in ir_data_fields.field_specs(cls) if obj.has_field(nm)]
         want_has = "has " + ",".join(names) + (",!" if obj.has_field("no_such_field") else "")
 
@@ -1445,6 +1477,7 @@ def explore(chk, tier, model_ok, schema, search_mode=False):
     chk.extra["malformed_stream"] = {"by_mutation": dict(sorted(run.mal_kinds.items())),
                                      "both_reject": run.both_reject, "python_more_lenient_than_model": run.lenient}
     chk.extra["disagreements"] = run.disagreements
+    chk.extra["text_layer_ops"] = getattr(run, "text_layer_ops", 0)
     return run
 
 
